@@ -122,7 +122,7 @@ def _gen_once(rng, max_heavy, p_arom, p_ring, charged, hetero, triple, lowest_va
         add_het5_ring(None)
     elif rng.random() < p_arom and target >= 6:
         add_arom_ring(None)
-        while rng.random() < p_fused and len(g) + 4 <= max_heavy + 4 and nring[0] < 3:
+        while rng.random() < p_fused and len(g) + 4 <= max_heavy + 4 and nring[0] < 4:
             if not add_fused_ring():
                 break
     else:
@@ -431,15 +431,17 @@ def render_fragment(rng, g, nodes, desc, start=None, opts=None):
                 tokens.append(('ring', ring_text(*x), n))
             else:
                 tokens.append(('desc', fmt_desc(*x, explicit_single=rng.random() < opts.get('explicit_single', 0.0)), n, x))
+        # ... or after ALL neighbours written as branches: CS(=O)(=O)[$]
+        all_br = bool(late) and rng.random() < 0.4
         for i, x in enumerate(ks):
             bs = bond_sym(g, n, x, rng, opts.get('explicit_single', 0.0))
-            if i < len(ks) - 1:
+            if i < len(ks) - 1 or all_br:
                 tokens.append(('open',))
                 if bs:
                     tokens.append(('bond', bs))
                 emit(x)
                 tokens.append(('close',))
-                if late and (i == len(ks) - 2 or rng.random() < 0.5):
+                if late and ((i == len(ks) - 1) if all_br else (i == len(ks) - 2 or rng.random() < 0.5)):
                     for kind_, x2 in late:
                         tokens.append(('desc', fmt_desc(*x2), n, x2))
                     late = []
